@@ -160,7 +160,7 @@ def callback (s : St) (m : Nat) (k : TimeKind) (d : Int) : St :=
 
 /-- does `Timer.__call__` / the `with` statement use a Timer object nobody else holds? -/
 def TimerMode.fresh : TimerMode → Bool
-  | .decorator _ => timerCallFresh
+  | .decorator _ => timerCallFresh && newTimerIsNew   -- `with self._new_timer():` and `_new_timer` builds a new Timer
   | .withNew => true
   | .withShared _ => false
 
@@ -453,7 +453,7 @@ def wrapperSpec (s : ArgSpec) (wid : Nat := 0) : ArgSpec :=
     kwonly := p.kwonly, kwdefaults := s.kwdefaults, varkw := p.varkw, annotations := s.annotations,
     doc := s.doc, qualname := s.qualname, module := s.module, dict := s.dict, wrapped := some s.fid, fid := wid }
 
-inductive DecoErr | nameError
+inductive DecoErr | nameError | attributeError | typeError
 deriving DecidableEq, Repr
 
 /-- names `make()` refuses: the function name and every entry of `shortsignature.split(',')` stripped of
@@ -469,6 +469,48 @@ def checkedNames (s : ArgSpec) : List Name :=
 def decorate (s : ArgSpec) (wid : Nat := 0) : Except DecoErr ArgSpec :=
   if (checkedNames s).any (fun n => reservedNames.contains n) then .error .nameError
   else .ok (wrapperSpec s wid)
+
+/-- what `time()(x)`, `count_exceptions()(x)`, `track_inprogress()(x)` can be handed.  **Domain of the model**: an
+`ArgSpec` describes a Python *function* (`def` or `lambda`, also when it is later bound as method / classmethod /
+staticmethod by its class).  Every other callable is refused by `FunctionMaker.__init__` before anything is wrapped,
+so no theorem about wrappers speaks about it. -/
+inductive CallableKind
+  | function            -- def / lambda
+  | callableInstance    -- object with __call__
+  | partialObject       -- functools.partial
+  | builtin             -- e.g. len
+  | boundMethod         -- obj.method
+  | cls                 -- a class
+  | staticmethodObject  -- staticmethod(f) / classmethod(f) taken from the class dict
+deriving DecidableEq, Repr
+
+/-- has a `__name__` attribute (CPython 3.10+: staticmethod objects copy it) -/
+def CallableKind.hasName : CallableKind → Bool
+  | .callableInstance => false
+  | .partialObject => false
+  | _ => true
+
+/-- `decorate(x, caller)` for any callable: `FunctionMaker.__init__` reads `x.__name__` (AttributeError), builds a
+signature only `if inspect.isfunction(x)` and raises `TypeError('You are decorating a non function')` without one -/
+def decorateCallable (k : CallableKind) (s : ArgSpec) (wid : Nat := 0) : Except DecoErr ArgSpec :=
+  if k = .function then decorate s wid
+  else if makerReadsDunderName && !k.hasName then .error .attributeError
+  else if makerRefusesNonFunctions then .error .typeError
+  else decorate s wid
+
+/-- the callback `Timer` is given by `Gauge.time()`, `Summary.time()`, `Histogram.time()` -/
+def kindOfCallback (name : List Char) : Option TimeKind :=
+  if name = "set".toList then some .set else if name = "observe".toList then some .observe else none
+
+def classOfName (name : List Char) : Option ExcClass :=
+  if name = "BaseException".toList then some .baseException else if name = "Exception".toList then some .exception
+  else if name = "ValueError".toList then some .valueError else if name = "LookupError".toList then some .lookupError
+  else if name = "KeyError".toList then some .keyError else if name = "KeyboardInterrupt".toList then some .keyboardInterrupt
+  else if name = "SystemExit".toList then some .systemExit else if name = "GeneratorExit".toList then some .generatorExit
+  else none
+
+/-- `counter.count_exceptions()` without argument -/
+def defaultClasses : List ExcClass := (classOfName countExcDefault).toList
 
 /-- a keyword-only parameter called `_call_` or `_func_` passes `make()`'s check and then hides the global the
 generated body needs -/
